@@ -8,6 +8,7 @@ import (
 	"encoding/binary"
 	"fmt"
 	"sort"
+	"sync"
 
 	txfile "github.com/elastic/go-txfile"
 	"github.com/elastic/go-txfile/txerr"
@@ -119,6 +120,12 @@ type Engine struct {
 	txOpts  Op
 
 	readers []*reader
+	fmu     sync.Mutex
+	rmu     sync.Mutex // guards readers and Failures when a campaign uses several goroutines
+
+	// KeepReaders: commit does not close open readers first (the campaign closes them from
+	// another goroutine while Commit waits for the exclusive lock).
+	KeepReaders bool
 
 	Failures []string // oracle violations
 	Log      []string // executed ops with results
@@ -190,7 +197,41 @@ func (e *Engine) headerTxid() uint64 {
 
 func (e *Engine) fail(format string, args ...interface{}) {
 	msg := fmt.Sprintf("op#%d: ", e.OpIndex) + fmt.Sprintf(format, args...)
+	e.fmu.Lock()
 	e.Failures = append(e.Failures, msg)
+	e.fmu.Unlock()
+}
+
+// Fail records an oracle failure found by a campaign.
+func (e *Engine) Fail(format string, args ...interface{}) { e.fail(format, args...) }
+
+// NumReaders returns the number of open read transactions.
+func (e *Engine) NumReaders() int {
+	e.rmu.Lock()
+	defer e.rmu.Unlock()
+	return len(e.readers)
+}
+
+// VerifyReaders re-reads the complete view of every open reader.
+func (e *Engine) VerifyReaders(what string) {
+	e.rmu.Lock()
+	defer e.rmu.Unlock()
+	for _, r := range e.readers {
+		e.checkReader(r, what)
+	}
+}
+
+// CloseReaders verifies and closes all readers.
+func (e *Engine) CloseReaders(what string) {
+	e.rmu.Lock()
+	defer e.rmu.Unlock()
+	for _, r := range e.readers {
+		e.checkReader(r, what)
+		if err := r.tx.Close(); err != nil {
+			e.fail("reader Close failed: %v", err)
+		}
+	}
+	e.readers = nil
 }
 
 // Pattern produces deterministic page contents.
@@ -556,6 +597,10 @@ func (e *Engine) apply(op Op) Result {
 				}
 			}
 		}
+		// single-threaded histories: a commit would wait for open readers for ever
+		if len(e.readers) > 0 && !e.KeepReaders {
+			e.apply(Op{Kind: "rcloseall"})
+		}
 		e.Disk.Marker("commit-begin")
 		err := e.Tx.Commit()
 		if err != nil {
@@ -606,7 +651,9 @@ func (e *Engine) apply(op Op) Result {
 			e.fail("BeginReadonly failed: %v", err)
 			return Result{Err: ErrKind(err)}
 		}
+		e.rmu.Lock()
 		e.readers = append(e.readers, &reader{tx: tx, state: e.Committed.Clone()})
+		e.rmu.Unlock()
 		if got := uint64(tx.Root()); got != e.Committed.Root {
 			e.fail("reader Root()=%d, model root=%d", got, e.Committed.Root)
 		}
@@ -634,13 +681,7 @@ func (e *Engine) apply(op Op) Result {
 		return Result{}
 
 	case "rcloseall":
-		for _, r := range e.readers {
-			e.checkReader(r, "rcloseall")
-			if err := r.tx.Close(); err != nil {
-				e.fail("reader Close failed: %v", err)
-			}
-		}
-		e.readers = nil
+		e.CloseReaders("rcloseall")
 		return Result{}
 
 	case "reopen":
